@@ -306,6 +306,10 @@ type Options struct {
 	// IdleProb is the probability (in 1/1000) of letting time pass when both gated and timed goroutines exist.
 	IdleProb int
 	Budget   time.Duration // per-step quiescence budget
+	// PollPrefixes: gate points (by prefix) that belong to polling loops of the library (ticker driven re-checks).
+	// When only goroutines inside such loops have moved for several complete rounds, the configuration cannot
+	// change any more (every poller re-evaluated the unchanged state) and the execution is terminal.
+	PollPrefixes []string
 }
 
 // Result of one controlled execution.
@@ -313,6 +317,7 @@ type Result struct {
 	Steps     []Step
 	Choices   []string
 	Stuck     bool              // terminal with unfinished drivers
+	PollOnly  bool              // terminal because only polling loops were still cycling
 	Blocked   map[string]string // role -> wait state at the terminal snapshot
 	Infra     string            // non-empty: infrastructure failure (no quiescence, step limit)
 	Diverged  bool              // replay could not be followed
@@ -361,7 +366,16 @@ func (c *Ctl) Run(o Options, driversDone func() bool) Result {
 		o.MaxSteps = 5000
 	}
 	idleSpins := 0
+	pollCnt := map[int64]int{}
 	var snap []GInfo
+	isPoll := func(pt string) bool {
+		for _, p := range o.PollPrefixes {
+			if strings.HasPrefix(pt, p) {
+				return true
+			}
+		}
+		return false
+	}
 	for {
 		var ok bool
 		snap, ok = c.quiesce(o.Budget)
@@ -373,6 +387,34 @@ func (c *Ctl) Run(o Options, driversDone func() bool) Result {
 				}
 			}
 			break
+		}
+		allPoll := len(o.PollPrefixes) > 0 && len(c.gated) > 0
+		for _, a := range c.gated {
+			if !isPoll(a.Pt) {
+				allPoll = false
+			}
+		}
+		if len(o.PollPrefixes) > 0 && len(c.gated)+len(c.timed) > 0 && (allPoll || len(c.gated) == 0) {
+			// every goroutine that can still move is inside a polling loop, and each of them has gone through at
+			// least two complete rounds (re-evaluating the unchanged state) since anybody else moved
+			enough := true
+			for gid := range c.gated {
+				if pollCnt[gid] < 7 {
+					enough = false
+				}
+			}
+			for gid := range c.timed {
+				if pollCnt[gid] < 7 {
+					enough = false
+				}
+			}
+			if enough {
+				res.PollOnly = true
+				if !driversDone() {
+					res.Stuck = true
+				}
+				break
+			}
 		}
 		if len(c.gated) == 0 {
 			if len(c.timed) > 0 && idleSpins < 200000 {
@@ -392,6 +434,15 @@ func (c *Ctl) Run(o Options, driversDone func() bool) Result {
 			break
 		}
 		a, idle, div := c.choose(o)
+		if allPoll && !div && c.strategy != "replay" {
+			// fair round-robin among pollers
+			idle = false
+			for _, g := range c.gated {
+				if a == nil || pollCnt[g.Gid] < pollCnt[a.Gid] || (pollCnt[g.Gid] == pollCnt[a.Gid] && g.Role < a.Role) {
+					a = g
+				}
+			}
+		}
 		if div {
 			res.Diverged = true
 			break
@@ -413,6 +464,11 @@ func (c *Ctl) Run(o Options, driversDone func() bool) Result {
 		delete(c.gated, a.Gid)
 		if strings.HasSuffix(a.Pt, ".tw0") {
 			c.timed[a.Gid] = true
+		}
+		if isPoll(a.Pt) {
+			pollCnt[a.Gid]++
+		} else {
+			clear(pollCnt)
 		}
 		st := Step{Role: a.Role, Pt: a.Pt, Obj: a.Obj, N: a.N}
 		c.Steps = append(c.Steps, st)
